@@ -12,6 +12,7 @@ models and prints one canonical answer line per op (see harness/e4/*_test.go for
   <now> http <handler> <bad 0|1> <topic|_> <channel|_> <node|_>
   <now> raw <method> <path> <bad 0|1> <topic|_> <channel|_> <node|_>
   <now> stream <p> <hex bytes> [<hex body>=<bcast>/<host>/<ver>/<tcp>/<http> …]
+  <now> spoof <p> <victim conn> <extra keys|-> <bcast> <host> <ver> <tcp> <http> <hex of what follows the body>
   <now> q
   noq <line>   apply, print `noq`;   st <line>   apply, print only the reply (no query answers)
 -/
@@ -175,6 +176,16 @@ def stepLine1 (s : DSt) (line : String) : DSt × String :=
           withQ { s with reg := res.reg } now
             (s!"fin={endStr res.fin} replies=" ++ ",".intercalate (res.replies.map hex))
         | _, _ => (s, "bad-op")
+      | ["spoof", p, _victim, _keys, bc, ho, ve, tcp, http, restHex] =>
+        -- a valid IDENTIFY whose document has extra members (they are not IDENTIFY fields: the decoder's
+        -- result is the five fields); the body is a one-byte placeholder here
+        match p.toNat?, parseInfo bc ho ve tcp http, unhex restHex with
+        | some p, some inf, some rest =>
+          let bs := magicV1 ++ cmdIDENTIFY ++ [10, 0, 0, 0, 1, 66] ++ rest
+          let res := handle s.variant (fun b => if b = [66] then some inf else none) s.reg p now bs
+          withQ { s with reg := res.reg } now
+            (s!"fin={endStr res.fin} replies=" ++ ",".intercalate (res.replies.map hex))
+        | _, _, _ => (s, "bad-op")
       | _ => (s, "bad-op")
   | _ => (s, "bad-op")
 
